@@ -1,11 +1,14 @@
 /-
   C15 — insignificant surface syntax never changes the parsed program.
   [A]: character-level lemmas about the lexer step (blank, tab, `;`, line break, CRLF, bracket
-  depth, comment) and action-level equalities.  The token-level half (redundant parentheses,
-  trailing commas and call styles at *every* position) is carried by the pending completeness
-  theorem of C06 and, until then, by the layout correspondence slice + metamorphic monitor.
+  depth, comment) and action-level equalities.  [B] token level, unbounded (SqLemmas/ParseLayout.lean on top
+  of the completeness theorem of C06): blank statements, a trailing separator, the kind of closer that follows an
+  expression, and a trailing comma after the last argument / element / entry never change the derived — hence
+  the parsed — program; redundant parentheses and the three call styles are `C06.parens_read_as_inner` /
+  `C06.method_and_pipe_same_tree`.  Pending: the character-level half over whole texts (`lex_extra_blank`).
 -/
 import Sq.Proto
+import SqLemmas.ParseLayout
 namespace SqProps.C15
 open Sq
 
@@ -54,6 +57,60 @@ theorem brackets_track_depth (st : LexSt) (cs : List Char) :
 theorem blank_statement_dropped (f : Nat) (t : Token) (rest : List Token) (h : t.ty = .NEWLINE) :
     pStatement f (t :: rest) = .ok (none, t :: rest) := by
   simp [pStatement, h]
+
+/-! ### token level, every program (by completeness of the parser w.r.t. the levelled relation) -/
+
+/-- a blank statement in front of a derivable program: same parse result -/
+theorem leading_blank_insignificant {ts : List Token} {out : List Op} {nl : Token} (hnl : nl.ty = .NEWLINE)
+    (h : RCode [] ts out) : parseTokens (nl :: ts) = parseTokens ts := by
+  rw [complete h, complete (rcode_leading_blank hnl h)]
+
+/-- a separator (`;`, LF or CRLF — one NEWLINE token) after the last statement: same parse result -/
+theorem trailing_separator_insignificant {ts : List Token} {out : List Op} {nl : Token} (hnl : nl.ty = .NEWLINE)
+    (h : RCode [] ts out) : parseTokens (ts ++ [nl]) = parseTokens ts := by
+  rw [complete h, complete (rcode_trailing_sep h hnl)]
+
+/-- a doubled separator between two statements (a blank statement): same derived program -/
+theorem blank_between_statements {acc : List Op} {ts : List Token} {s : Option Op} {nl nl2 : Token} {rest : List Token}
+    {out : List Op} (hs : RStmt ts s (some .NEWLINE)) (hnl : nl.ty = .NEWLINE) (hnl2 : nl2.ty = .NEWLINE)
+    (h : RCode (pushStmt acc s) rest out) :
+    RCode acc (ts ++ nl :: rest) out ∧ RCode acc (ts ++ nl :: nl2 :: rest) out :=
+  ⟨RCode.more hs hnl h, rcode_double_sep hs hnl hnl2 h⟩
+
+/-- the tree an expression reads as does not depend on which closing token follows it
+    (end of text, separator, `)`, `]`, `}`, `,`, `:`) -/
+theorem closer_irrelevant {m : Nat} {a : Assoc} {ts : List Token} {t : Op} {b : Bool} {nxt nxt' : LA}
+    (h : RExpr m a ts t b nxt) (hc : closer nxt) (hc' : closer nxt') : RExpr m a ts t b nxt' :=
+  swExpr h nxt' (Or.inr ⟨hc, hc'⟩)
+
+/-- trailing comma after the last of several arguments (`close` = `)`) or elements (`]`) -/
+theorem trailing_comma_last_arg {close : Tk} {acc : List Op} {cm cm' c : Token} {ts0 : List Token} {e : Op} {b : Bool}
+    (hclose : close = .RPAREN ∨ close = .RBRACKET)
+    (hcm : cm.ty = .COMMA) (hcm' : cm'.ty = .COMMA) (hc : c.ty = close)
+    (hfirst : peekTy (ts0 ++ [c]) ≠ some close)
+    (he : RExpr 0 .right ts0 e b (some close)) :
+    RArgsTail close acc (cm :: ts0 ++ [c]) (e :: acc).reverse ∧
+    RArgsTail close acc (cm :: ts0 ++ [cm', c]) (e :: acc).reverse := by
+  rcases hclose with h | h <;> subst h
+  · exact last_arg_trailing_comma closer_rparen (by decide) hcm hcm' hc hfirst he
+  · exact last_arg_trailing_comma closer_rbracket (by decide) hcm hcm' hc hfirst he
+
+/-- trailing comma after a single argument / element -/
+theorem trailing_comma_only_arg {close : Tk} {cm c : Token} {ts0 : List Token} {e : Op} {b : Bool}
+    (hclose : close = .RPAREN ∨ close = .RBRACKET) (hcm : cm.ty = .COMMA) (hc : c.ty = close)
+    (he : RExpr 0 .right ts0 e b (some close)) :
+    RArgs close (ts0 ++ [c]) [e] ∧ RArgs close (ts0 ++ [cm, c]) [e] := by
+  rcases hclose with h | h <;> subst h
+  · exact only_arg_trailing_comma closer_rparen (by decide) hcm hc he
+  · exact only_arg_trailing_comma closer_rbracket (by decide) hcm hc he
+
+/-- trailing comma after the last dict entry -/
+theorem trailing_comma_last_entry {acc : List Op} {tsk tsv : List Token} {k v : Op} {bk bv : Bool} {col cm rb : Token}
+    (hk : RExpr 0 .right tsk k bk (some .COLON)) (hcol : col.ty = .COLON)
+    (hv : RExpr 0 .right tsv v bv (some .RBRACE)) (hcm : cm.ty = .COMMA) (hrb : rb.ty = .RBRACE) :
+    RDict acc (tsk ++ col :: tsv ++ [rb]) (v :: k :: acc).reverse ∧
+    RDict acc (tsk ++ col :: tsv ++ [cm, rb]) (v :: k :: acc).reverse :=
+  last_entry_trailing_comma hk hcol hv hcm hrb
 
 /-! action-level equalities as finite tests on the model's parser (labelled as tests) -/
 -- redundant parentheses
